@@ -267,7 +267,12 @@ def load_module_from_file_object(
             )
         elif magic_int == 62135:
             fp.seek(0)
-            return fix_dropbox_pyc(fp)
+            try:
+                return fix_dropbox_pyc(fp)
+            except Exception as e:
+                raise ImportError(
+                    f"Ill-formed dropbox bytecode file {filename}\n{type(e)}; {e}"
+                )
         elif magic_int == 62215:
             raise ImportError(
                 "%s is a dropbox-hacked Python %s (bytecode %d).\n"
